@@ -23,7 +23,7 @@ def cases(tier, seed):
         reqs = [i for i in g.instances(version, action, "req") if not i[2] and isinstance(i[1], dict)]
         resps = [i for i in g.instances(version, action, "resp") if not i[2] and isinstance(i[1], dict)]
         heavy = (version, action) in DECIMAL
-        k = (5 if heavy else 2) if tier == "quick" else (14 if heavy else 8)
+        k = (5 if heavy else 3) if tier == "quick" else (14 if heavy else 8)     # required-only, everything, boundary lengths
         picks = [(reqs[i % len(reqs)], resps[i % len(resps)]) for i in ([1, 0, 3, 2, 4][:k] if k <= 5 else [1, 0] + list(range(2, k)))]
         for (rq, rs) in picks:
             out.append((version, action, rq[1], rs[1]))
